@@ -92,6 +92,10 @@ func NewGen(seed int64, nFs, nEth int) *Gen {
 			g.Rates[name] = 2e8
 		case "XBT":
 			g.Rates[name] = 9000e8
+		case "KRW":
+			g.Rates[name] = 80000 // low-priced assets: the 1 % band of the first SPR era
+		case "INR":
+			g.Rates[name] = 99000
 		default:
 			g.Rates[name] = uint64(1e6 + (i*7919)%997*1e6)
 		}
